@@ -585,17 +585,33 @@ def check_deepest_first(ctx):
         rev_nodes = {mn for (mn, astn, h) in rd.mutations(it.id)
                      if h == 'reverse'}
         defs = rd.reaching(it.id, lp.id)
-        ok = bool(defs) and bool(rev_nodes)
+
+        def _reversed_value(v):
+            """the definition itself is a reversed copy"""
+            while isinstance(v, ast.Call) and isinstance(
+                    v.func, ast.Name) and v.func.id in ('list', 'tuple') \
+                    and v.args:
+                v = v.args[0]
+            if isinstance(v, ast.Call) and isinstance(
+                    v.func, ast.Name) and v.func.id == 'reversed':
+                return True
+            return isinstance(v, ast.Subscript) and isinstance(
+                v.slice, ast.Slice) and v.slice.step is not None \
+                and unparse(v.slice.step) == '-1' \
+                and v.slice.lower is None and v.slice.upper is None
+        ok = bool(defs)
+        n_rev = 0
         for d in defs:
+            by_def = _reversed_value(getattr(d, 'value', None))
             okp, _p = cfg.must_pass(
                 d.node, {lp.id}, lambda x: x.id in rev_nodes,
                 edge_ok=lambda a, b, lab: lab != 'exc')
-            if not okp:
+            by_mut = bool(rev_nodes) and okp
+            # exactly one reversal on the way (two cancel)
+            if by_def == by_mut or (by_mut and len(rev_nodes) != 1):
                 ok = False
-        # exactly one reversal (two cancel)
-        if ok and len(rev_nodes) != 1:
-            ok = False
-        how = '.reverse() before the loop'
+            n_rev += 1
+        how = 'a reversed copy / .reverse() before the loop'
     ctx.ob(rule, 'validate_marker_lookup:order', fi.loc(lp.ast), ok,
            f'parents are visited deepest first ({how})' if ok else
            'the loop stores augmented lists into marker_lookup and reads '
